@@ -259,7 +259,7 @@ func runC01TransferSites(c *Ctx) {
 					dl := chunkLen(dataV)
 					c.check(L.equal(dl), "R1", site+" (v) Length==len(Data)", pos(a), "Length = "+L.String(), "Length ("+L.String()+") is not the length of Data ("+dl.String()+")")
 					// a slice b[:n] of a reused buffer must be filled by the call that produced n
-					if s, ok := dataV.(*ssa.Slice); ok && s.Low == nil && s.High != nil {
+					if s, ok := dataV.(*ssa.Slice); ok && s.Low == nil && s.High != nil && !isClampSlice(s) {
 						filled := false
 						for _, l := range leavesOf(s.High) {
 							if l.Kind == leafCallResult && isFillCall(l.Call) && l.Idx == 0 && sameValue(l.Call.Args[1], s.X) {
@@ -367,6 +367,20 @@ func runC01TransferSites(c *Ctx) {
 					}
 				}
 				if !bounded {
+					// min(len(x), maxPacket): bounded by each of its arguments
+					for _, v := range L.atoms {
+						if call, ok := v.(*ssa.Call); ok && builtinName(&call.Call) == "min" {
+							for _, a := range call.Call.Args {
+								for k := range affineOf(a).coef {
+									if strings.HasSuffix(k, ".maxPacket") {
+										bounded = true
+									}
+								}
+							}
+						}
+					}
+				}
+				if !bounded {
 					// len(rb) with rb = phi(x, x[:chunkSize]) under len(x) > chunkSize
 					for _, v := range L.atoms {
 						if call, ok := v.(*ssa.Call); ok && builtinName(&call.Call) == "len" {
@@ -376,11 +390,18 @@ func runC01TransferSites(c *Ctx) {
 						}
 					}
 					if lv, ok := lenV.(*ssa.Convert); ok {
+						cnt := lv.X
+						// uint32(len(b[:n])) is uint32(n)
+						if lc, ok := cnt.(*ssa.Call); ok && builtinName(&lc.Call) == "len" {
+							if sl, ok := lc.Call.Args[0].(*ssa.Slice); ok && sl.Low == nil && sl.High != nil {
+								cnt = stripConv(sl.High)
+							}
+						}
 						// n accumulated by a fill loop over b = make([]byte, maxPacket): never more than len(b)
-						if buf, ok := accumulatedRead(lv.X); ok && madeWith(buf, "maxPacket") {
+						if buf, ok := accumulatedRead(cnt); ok && madeWith(buf, "maxPacket") {
 							bounded = true
 						}
-						if ext, ok := lv.X.(*ssa.Extract); ok {
+						if ext, ok := cnt.(*ssa.Extract); ok {
 							// n from io.ReadFull(r, b) with b = make([]byte, maxPacket)
 							if call, ok := ext.Tuple.(*ssa.Call); ok && isFillCall(&call.Call) {
 								if madeWith(call.Call.Args[1], "maxPacket") {
@@ -405,7 +426,20 @@ func runC01TransferSites(c *Ctx) {
 			}
 			n++
 			site := nm + " call in " + fnName(fn)
-			buf, off := call.Call.Args[2], call.Call.Args[3]
+			// the buffer and the offset among the arguments, whatever their order: the []byte and the int64
+			var buf, off ssa.Value
+			for _, a := range call.Call.Args[1:] {
+				if buf == nil && isByteSlice(a.Type()) {
+					buf = a
+				}
+				if off == nil && isBasicKind(types.Int64)(a.Type()) {
+					off = a
+				}
+			}
+			if buf == nil || off == nil {
+				c.und("R1", nm+" call in "+fnName(fn), pos(in), "cannot tell the buffer and the offset among the arguments of "+nm)
+				return
+			}
 			O := affineOf(off)
 			lp := innermostLoop(loopsOf(fn), call.Block())
 			if lp == nil {
@@ -674,6 +708,15 @@ func clampedBy(v ssa.Value, what string) bool {
 			for k := range t.coef {
 				if strings.Contains(k, what) {
 					return true
+				}
+			}
+			if call, ok := stripConv(s.High).(*ssa.Call); ok && builtinName(&call.Call) == "min" {
+				for _, a := range call.Call.Args {
+					for k := range affineOf(a).coef {
+						if strings.Contains(k, what) {
+							return true
+						}
+					}
 				}
 			}
 		}
@@ -1025,9 +1068,11 @@ func runC01Server(c *Ctx) {
 			if !ok || cmp.Op != token.GTR {
 				continue
 			}
-			x, y := affineOf(cmp.X), affineOf(cmp.Y)
+			x := affineOf(cmp.X)
 			if _, isLen := x.coef["fld:param:p.Len"]; isLen {
-				if _, isMax := y.coef["param:maxTxPacket"]; isMax {
+				// against one of its uint32 parameters, whatever it is called (which one it is at the call sites is
+				// followed below)
+				if pr, isPrm := stripConv(cmp.Y).(*ssa.Parameter); isPrm && isBasicKind(types.Uint32)(pr.Type()) {
 					clamp = true
 				}
 			}
@@ -1489,14 +1534,9 @@ func bufferAdvancesByChunk(fn *ssa.Function) bool {
 			any = true
 			good := false
 			if s, ok := e.(*ssa.Slice); ok && s.X == ssa.Value(phi) && s.Low != nil && s.High == nil {
-				lo := affineOf(s.Low)
-				if len(lo.coef) == 1 && lo.c == 0 {
-					for _, v := range lo.atoms {
-						if call, isCall := v.(*ssa.Call); isCall && builtinName(&call.Call) == "len" {
-							if b, st, ok := chunkStart(call.Call.Args[0], 0); ok && b == valKey(phi) && isZero(st) {
-								good = true
-							}
-						}
+				if call, isCall := stripConv(s.Low).(*ssa.Call); isCall && builtinName(&call.Call) == "len" {
+					if b, st, ok := chunkStart(call.Call.Args[0], 0); ok && b == valKey(phi) && isZero(st) {
+						good = true
 					}
 				}
 			}
@@ -1655,4 +1695,21 @@ func checkReadReplyTruthTable(c *Ctx, rule string) {
 		}
 	}
 	c.check(n >= 3, rule, "READ sites", "?", fmt.Sprintf("%d ReadAt sites", n), fmt.Sprintf("only %d ReadAt sites found in handlePacket, fileget and fileputget", n))
+}
+
+// isClampSlice: x[:min(len(x), K)] — the buffer cut to a maximum, not a prefix filled by a read.
+func isClampSlice(s *ssa.Slice) bool {
+	if s.Low != nil || s.High == nil {
+		return false
+	}
+	call, ok := stripConv(s.High).(*ssa.Call)
+	if !ok || builtinName(&call.Call) != "min" {
+		return false
+	}
+	for _, a := range call.Call.Args {
+		if lc, ok := stripConv(a).(*ssa.Call); ok && builtinName(&lc.Call) == "len" && lc.Call.Args[0] == s.X {
+			return true
+		}
+	}
+	return false
 }
